@@ -9,8 +9,8 @@ use std::sync::Arc;
 fn from_impl(k: &KeyPath) -> KP {
     match k {
         KeyPath::Index(i) => KP::Index(*i),
-        KeyPath::Name(s) => KP::Name(s.to_string()),
-        KeyPath::QuotedName(s) => KP::QuotedName(s.to_string()),
+        KeyPath::Name(s) => KP::Name(crate::conv::safe_string(s)),
+        KeyPath::QuotedName(s) => KP::QuotedName(crate::conv::safe_string(s)),
     }
 }
 
@@ -25,7 +25,15 @@ fn needs_escape(v: &[KP]) -> bool {
 pub fn judge_raw(input: &[u8], acc: &mut Acc) {
     acc.eval();
     let show = || json!({"input": String::from_utf8_lossy(input), "hex": refmodel::layout::hex(input)});
-    let got = match guard(|| parse_key_paths(input).map(|k| (k.paths.iter().map(from_impl).collect::<Vec<_>>(), format!("{}", k)))) {
+    let got = match guard(|| {
+        parse_key_paths(input).map(|k| {
+            let els = k.paths.iter().map(from_impl).collect::<Vec<_>>();
+            // never print (char-level work) a path that holds an ill-formed string
+            let ill = els.iter().any(|e| matches!(e, KP::Name(s) | KP::QuotedName(s) if s.starts_with("ILL-FORMED-UTF8[")));
+            let printed = if ill { String::from("<not printed: ill-formed UTF-8>") } else { format!("{}", k) };
+            (els, printed)
+        })
+    }) {
         Err(p) => {
             acc.outcome("panic");
             acc.vio(&format!("parse:{}", panic_class(&p)), show);
